@@ -33,9 +33,13 @@ AbsGiveBack == \E c \in Consumers, i \in Ids, k \in {"n", "d", "x"} : ~deliv[i] 
 (* finish(): all unsettled deliveries of the consumer go back in one step (client-held ones included) *)
 AbsFinish ==
     \E c \in Consumers :
-        /\ \A i \in Ids : (AbsHolder[i] = c /\ AbsHolder'[i] # c) => (AbsHolder'[i] = 0 /\ AbsLoc'[i] \in {U("n"), U("d"), U("x")} /\ ret'[i])
-        /\ \A i \in Ids : (AbsHolder[i] # c) => (AbsHolder'[i] = AbsHolder[i] /\ AbsLoc'[i] = AbsLoc[i])
-        /\ UNCHANGED <<now, st, AbsMeta, AbsCons>>
+        LET R == {i \in Ids : AbsHolder[i] = c /\ AbsHolder'[i] # c} IN
+        /\ R # {}
+        /\ \A i \in R : AbsHolder'[i] = 0 /\ AbsLoc[i] = U("p") /\ ret'[i]
+                         /\ \E k \in Abs!BackPlaces(i) : AbsLoc'[i] = U(k)
+        /\ \A i \in Ids \ R : AbsHolder'[i] = AbsHolder[i] /\ AbsLoc'[i] = AbsLoc[i] /\ ret'[i] = ret[i]
+        /\ \A k \in 1..Len(norder') : norder'[k] \in R \/ \E j \in 1..Len(norder) : norder[j] = norder'[k]
+        /\ UNCHANGED <<now, st, AbsMeta, AbsCons, deliv, orig, transit>>
 (* the recorded finding rabbit-prefetch-expiry: the time-to-live is judged when the delivery arrives, not at hand-over *)
 AbsDeliverLate == \E c \in Consumers, i \in Ids : Abs!Deliver(c, i, AllC \ {"ttl"})
 (* the pending record of the contract is only meaningful in transit: RequeueInsert leaves it, the mapping clears it *)
@@ -60,6 +64,28 @@ AbsAckRemoves == Abs!AckRemoves
 (* later-due message sits in front of it (finding rabbit-delay-head-of-line): the invariant names exactly that case   *)
 DueIsVisible == ~HeadExpired => \A k \in 1..Len(qd) : (qd[k][2] <= now) => \E j \in 1..(k - 1) : qd[j][2] > now
 NoHeadOfLine == ~HeadExpired => \A k \in 1..Len(qd) : qd[k][2] > now
+TrueC == TRUE
+(* ---- behaviours for replay (tlc -simulate): the server and the callbacks run to quiescence before the client's next call;  *)
+(* the rounds trips of requeue() and finish() follow one another; no pause (a paused consumer and the server bounce a          *)
+(* delivery back and forth every 0.1 s, which a replay at whole-second ticks cannot follow)                                     *)
+CanDeliver(c) == /\ cons[c].reg /\ Room(c) /\ ntag < MaxTag
+                 /\ (CASE cons[c].cat = "n" -> qn # <<>> [] cons[c].cat = "d" -> qd # <<>> [] cons[c].cat = "x" -> qx # <<>>)
+InternalEnabled == HeadExpired \/ cbs # {} \/ \E c \in Consumers : CanDeliver(c)
+InternalActs == {"expire", "deliver", "cb_sleep", "cb_expired", "cb_queue", "cb_reject"}
+SimOrder == /\ hist'[1] # "pause"
+            \* the client library starts one task per delivery and the event loop runs them in the order they were created
+            /\ (hist'[1] \in {"cb_sleep", "cb_expired", "cb_queue"}) => \A r \in cbs : r.stage = "new" => hist'[4] <= r.tag
+            \* (between the two round trips of requeue() the server goes on: the publish arrives after what the ack set off)
+            /\ (\E i \in Ids : transit[i]) => hist'[1] \in InternalActs \cup {"requeue_publish"}
+            /\ (\E c \in Consumers : ~cons[c].on /\ cons[c].reg) => hist'[1] = "finish_cancel"
+            /\ (\E c \in Consumers : cons[c].fin) => hist'[1] = "finish_reject"
+            /\ (InternalEnabled /\ ~(\E c \in Consumers : cons[c].fin \/ (~cons[c].on /\ cons[c].reg)))
+                  => hist'[1] \in InternalActs
+            \* at most one delivery that is not in the local queue goes back at a finish (their order is the insertion order of a dict)
+            /\ (hist'[1] = "finish_reject") =>
+                  LET c == hist'[2] IN Cardinality({i \in Ids : delivd[c][i] # 0 /\ tagmap[i] = delivd[c][i] /\ ~\E k \in 1..Len(local[c]) : local[c][k] = i}) <= 1
+CfgSimR == <<C("n", {}, 2), C("d", {}, 1), C("x", {}, 0)>>
+CfgSimR2 == <<C("n", {}, 0), C("x", {}, 1)>>
 Bound == ntag <= MaxTag
 NoHist == <<now, qn, qd, qx, unacked, cbs, tagmap, delivd, local, cons, ntag, meta, st, heldc, transit, pend, deliv, orig, ret, norder>>
 =============================================================================
